@@ -1,8 +1,19 @@
 #!/usr/bin/env python3
 """Regenerates MANIFEST.json from the table below (run after adding a check)."""
 import json, os, subprocess
-HOOK_COMMITS = ["b90bd7e"]
+HOOK_COMMITS = ["b90bd7e", "6ee1992", "c78af28"]
 CHECKS = {
+ "C01": dict(
+   level=("proof", "Coq theorems for every register size n, target, ordered control/target pair, matrix and state: the blocked pair loop of "
+          "applySingleQubitGate equals the embedded operator I(x)..(x)M(x)..(x)I (any scalar type, axiom-free); cx's block/between/lowOffset "
+          "loop with its bit-or index arithmetic equals the controlled-NOT permutation (axiom-free); over R the seven matrices equal qelib1's "
+          "U(theta,phi,lambda) forms (rz up to an exhibited global phase), the rotations equal cos(t/2) I - i sin(t/2) P, and all are unitary. "
+          "The model is tied to qasm_simulator.cpp and the evaluator's dispatcher by running the extracted model (binary64 instance) and the real "
+          "simulator on every gate x target x basis state for n<=4 (quick) / n<=6 (thorough) plus random entangling circuits and generated Bloch "
+          "programs, comparing all amplitudes.", "DESIGN.md §6 C01"),
+   note="Trusted: Coq kernel + Coq.Reals axioms (sig_forall_dec, sig_not_dec, functional_extensionality_dep) for the matrix theorems only; extraction; "
+        "OCaml/C++/Python glue; hooks H1,H3. Not modelled: binary64 rounding (1e-9 tolerance); exp as a power series.",
+   technique="Coq proof (induction over loop enumeration, bit-level lemmas) + extraction-based correspondence with QasmSimulator"),
  "C20": dict(
    level=("proof", "13 Coq theorems (axiom-free) over a model of parseSemVer/compareSemVer/hasLatest/the --update decision/parseChecksum/"
           "the 72h notice throttle, for all strings, all checksums.txt contents and all invocation histories; the model is tied to "
